@@ -65,7 +65,7 @@ m = {
  "engines": [
    {"name": "dv", "path": "/verif/dv", "serves_properties": sorted(P.keys()), "kind_free_text": "property-based testing harness (proptest TestRunner per worker, 16 workers) driving the real library on the vsched controlled runtime; stateful programs as op lists + interpreter; shrinking; replay"},
    {"name": "sched_fuzz", "path": "/verif/fuzz", "serves_properties": sorted(P.keys()), "kind_free_text": "cargo-fuzz / libFuzzer target (no sanitizer): bytes are decoded into (configuration, program, schedule), executed deterministically on vsched with the property's oracle inside the target; coverage feedback from the instrumented desync crate; used by every thorough tier"},
-   {"name": "asan_real", "path": "/verif/fuzz-asan", "serves_properties": ["C14"], "kind_free_text": "cargo-fuzz / libFuzzer target with AddressSanitizer on the UNSHIMMED /repo build: generated multi-threaded programs with real threads and block_on; heap canaries; part of C14's quick and thorough tiers"},
+   {"name": "asan_real", "path": "/verif/fuzz-asan", "serves_properties": ["C14"], "kind_free_text": "cargo-fuzz / libFuzzer target with AddressSanitizer (quick and thorough tiers of C14) and ThreadSanitizer (thorough tier, std rebuilt with -Zbuild-std) on the UNSHIMMED /repo build: generated multi-threaded programs with real threads and block_on; heap canaries"},
    {"name": "vsched", "path": "/verif/vsched", "serves_properties": sorted(P.keys()), "kind_free_text": "deterministic coroutine-based replacement for std Mutex/Condvar/thread/mpsc; the generated schedule picks the next task at every visible operation"},
  ],
  "checks": checks,
